@@ -7,11 +7,13 @@ Nothing in here draws from a PRNG or reads a clock on a logging path (DESIGN 3.1
 from __future__ import annotations
 
 import ast
+import enum
 import hashlib
 import json
 import os
 import pickle
 import random
+import re
 import select
 import signal
 import struct
@@ -104,12 +106,20 @@ def exc_site(exc: BaseException) -> str:
     return site
 
 
+_ADDR = re.compile(r" at 0x[0-9a-fA-F]+")
+
+
+def _scrub(x: object) -> object:
+    """Memory addresses inside a message are not part of an outcome."""
+    return _ADDR.sub(" at 0x?", x) if isinstance(x, str) else x
+
+
 def canon_exception(e: BaseException) -> tuple:
     if isinstance(e, SyntaxError):
         return (
             "syntax",
             type(e).__name__,
-            e.msg,
+            _scrub(e.msg),
             e.filename,
             e.lineno,
             e.offset,
@@ -118,13 +128,40 @@ def canon_exception(e: BaseException) -> tuple:
             e.text,
             exc_site(e),
         )
-    return ("exc", type(e).__name__, str(e), exc_site(e))
+    return ("exc", type(e).__name__, _scrub(str(e)), exc_site(e))
+
+
+_ATOMS = (str, bytes, int, float, complex, bool, type(None), type(Ellipsis))
+
+
+def stable_dump(x: object) -> str:
+    """Like ast.dump(include_attributes=True), but free of memory addresses whatever ends up inside a field.
+
+    The pinned tree can put non-AST objects into a tree (e.g. a (Name, token) tuple for '$(l?)'); ast.dump prints
+    those with repr(), which contains addresses and made two identical outcomes compare unequal (a false alarm of
+    the first sweep)."""
+    if isinstance(x, ast.AST):
+        parts = [f"{n}={stable_dump(getattr(x, n))}" for n in x._fields if hasattr(x, n)]
+        parts += [f"{n}={getattr(x, n)!r}" for n in x._attributes if hasattr(x, n)]
+        return f"{type(x).__name__}({', '.join(parts)})"
+    if isinstance(x, _ATOMS):
+        return repr(x)
+    if isinstance(x, tuple) and hasattr(x, "_fields"):  # TokenInfo and other named tuples
+        inner = ", ".join(f"{n}={stable_dump(v)}" for n, v in zip(x._fields, x))
+        return f"{type(x).__name__}<{inner}>"
+    if isinstance(x, list):
+        return "[" + ", ".join(stable_dump(v) for v in x) + "]"
+    if isinstance(x, tuple):
+        return "(" + ", ".join(stable_dump(v) for v in x) + ",)"
+    if isinstance(x, enum.Enum):
+        return f"{type(x).__name__}.{x.name}"
+    return f"<{type(x).__name__}>"
 
 
 def canon_tree(tree: object) -> tuple:
     if isinstance(tree, ast.AST):
-        return ("ok", ast.dump(tree, include_attributes=True))
-    return ("ok-nontree", repr(tree))
+        return ("ok", stable_dump(tree))
+    return ("ok-nontree", stable_dump(tree))
 
 
 def outcome_of(fn, *args, **kwargs) -> tuple[tuple, object]:
